@@ -477,6 +477,10 @@ def write_evidence(pid, tier, seed, wall, runs, table, n_oblig, n_ok, known_hit,
         'wall_s': round(wall, 2),
         'violations': len(fresh),
     }
+    if os.path.realpath(front.REPO) != '/repo':
+        # development runs against a scratch worktree (VERIF_REPO=...) never overwrite the evidence of /repo
+        json.dump(ev, open(os.path.join(VERIF, '.work', pid, 'evidence.scratch.json'), 'w'), indent=1)
+        return
     os.makedirs(os.path.join(VERIF, 'evidence'), exist_ok=True)
     json.dump(ev, open(os.path.join(VERIF, 'evidence', pid + '.json'), 'w'), indent=1)
 
